@@ -519,31 +519,53 @@ def block_uci(ctx, fens, quick):
     n = 3000 if quick else 300000
     lines = gen_uci_lines(ctx.rng, fens, n)
     bdir = vlib.cxx_build("asan", ("texel",))
-    data = b"\n".join(lines) + b"\nquit\n"
-    try:
-        p = subprocess.run([os.path.join(bdir, "texel"), "-nonuma"], input=data, stdout=subprocess.PIPE, stderr=subprocess.PIPE, timeout=1800)
-    except subprocess.TimeoutExpired:
-        ctx.violation("UCI command loop did not terminate on the generated command lines", {"kind": "impl-hang", "tie": "uci-lines", "input": [l.hex() for l in lines[:50]]})
-        return
-    impl = p.stdout.decode("latin-1").split("\n")[:-1]
-    rc2, model, err2 = vlib.run_lines(vlib.driver_bin(), ["text ucireset"] + ["text uciline " + hx(l) for l in lines])
-    ctx.tie("uci-lines", kind="real texel binary (ASan+UBSan) fed position/verifdump command lines vs tokenizer + position-command model", lines=len(lines))
+    texel = os.path.join(bdir, "texel")
+    size = 300
+    sessions = [lines[i:i + size] for i in range(0, len(lines), size)]
+
+    def run_session(sess):
+        data = b"\n".join(sess) + b"\nquit\n"
+        try:
+            p = subprocess.run([texel, "-nonuma"], input=data, stdout=subprocess.PIPE, stderr=subprocess.PIPE, timeout=900)
+        except subprocess.TimeoutExpired:
+            return None
+        return p.returncode, p.stdout.decode("latin-1").split("\n")[:-1], p.stderr.decode("latin-1")[-1500:]
+
+    with cf.ThreadPoolExecutor(4) as ex:
+        res = list(ex.map(run_session, sessions))
+    mlines = []
+    for sess in sessions:
+        mlines += ["text ucireset"] + ["text uciline " + hx(l) for l in sess]
+    rc2, model, err2 = vlib.run_lines(vlib.driver_bin(), mlines)
+    ctx.tie("uci-lines", kind="real texel binary (ASan+UBSan) fed position/verifdump command lines vs tokenizer + position-command model", lines=len(lines), sessions=len(sessions))
     ctx.count(len(lines))
-    if p.returncode != 0:
-        k = len(impl)
-        ctx.violation(f"texel died (rc={p.returncode}) while reading UCI command lines, after {k} verifdump replies",
-                      {"kind": "impl-crash", "tie": "uci-lines", "rc": p.returncode, "stderr": p.stderr.decode('latin-1')[-1500:], "input": [l.hex() for l in lines]})
-        return
-    mod = [(i, o) for i, o in enumerate(model[1:]) if o != "-"]
-    for k, ((i, o), a) in enumerate(zip(mod, impl)):
-        if o != a:
-            ctx.violation(f"UCI command line handling differs from the model after line {lines[i - 1][:80]!r}: impl `{a[:200]}` model `{o[:200]}`",
-                          {"kind": "correspondence", "tie": "uci-lines", "input": [l.hex() for l in lines[max(0, i - 6):i + 1]], "impl": a, "model": o,
-                           "theorem_scope": "Props/C17.lean tokenize_no_oob (model no longer matches uciprotocol.cpp)"}, no_input=True)
+    if rc2 != 0 or len(model) != len(mlines):
+        ctx.violation("Lean driver died on the UCI lines", {"kind": "model-crash", "stderr": err2[-500:]}, no_input=True); return
+    pos = 0
+    for sess, r in zip(sessions, res):
+        mod = [(i, o) for i, o in enumerate(model[pos + 1:pos + 1 + len(sess)]) if o != "-"]
+        pos += 1 + len(sess)
+        if r is None:
+            ctx.violation("UCI command loop did not terminate on the generated command lines", {"kind": "impl-hang", "tie": "uci-lines", "input": [l.hex() for l in sess]}); return
+        rc, impl, err = r
+        if rc != 0:
+            foreign = next((why for pat, why in FOREIGN_DEFECTS if pat in err and "runtime error" in err), None)
+            if foreign is None:
+                ctx.violation(f"texel died (rc={rc}) while reading UCI command lines, after {len(impl)} verifdump replies of the session",
+                              {"kind": "impl-crash", "tie": "uci-lines", "rc": rc, "stderr": err, "input": [l.hex() for l in sess]}); return
+            ctx.tie("uci-lines", skipped_foreign_defect=1)
+            if foreign not in ctx.notes: ctx.notes.append(foreign)
+            mod = mod[:len(impl)]            # the replies before the foreign defect still count
+        for (i, o), a in zip(mod, impl):
+            if o != a:
+                ctx.violation(f"UCI command line handling differs from the model after line {sess[i - 1][:80]!r}: impl `{a[:200]}` model `{o[:200]}`",
+                              {"kind": "correspondence", "tie": "uci-lines", "input": [l.hex() for l in sess[:i + 1]], "impl": a, "model": o,
+                               "theorem_scope": "Props/C17.lean tokenize_no_oob (model no longer matches uciprotocol.cpp)"}, no_input=True)
+                return
+        if len(mod) != len(impl):
+            ctx.violation(f"UCI: {len(impl)} replies from the engine, {len(mod)} from the model in one session", {"kind": "correspondence", "tie": "uci-lines", "input": [l.hex() for l in sess]}, no_input=True)
             return
-    if len(mod) != len(impl):
-        ctx.violation(f"UCI: {len(impl)} replies from the engine, {len(mod)} from the model", {"kind": "correspondence", "tie": "uci-lines"}, no_input=True)
-    if impl: ctx.sample({"uci_line": repr(lines[0][:100]), "impl": impl[0][:200]})
+    if res and res[0] and res[0][1]: ctx.sample({"uci_line": repr(sessions[0][0][:100]), "impl": res[0][1][0][:200]})
 
 
 # ------------------------------------------------------------------------------------------------
